@@ -71,6 +71,8 @@ type opts struct {
 	secure                                     bool // enforce the BEP 42 security extension
 	slowRate                                   bool // with burst >= 0: one token every 4 s (C01: waiting replies must not stop the node)
 	defaultLimiter                             bool // hand-written config without a limiter: the package default is the budget
+	zones                                      bool // some sources are IPv6 link-local addresses with a zone
+	customAddr                                 bool // the transport hands out sources as some other net.Addr than *net.UDPAddr
 }
 
 type H struct {
@@ -176,6 +178,7 @@ func newHAt(rng *rand.Rand, tr *sim.Trace, seg int, o opts, local string, node s
 		rated: map[int]dht.QueryRateLimiting{}, writesOf: map[string]int{}, keyRL: map[string]dht.QueryRateLimiting{}}
 	rng.Read(h.own[:])
 	h.conn = sim.NewConn(local)
+	h.conn.Custom = o.customAddr
 	h.conn.OnWrite = func(b []byte, to net.Addr) error {
 		if atomic.LoadInt32(&h.failNext) > 0 && atomic.AddInt32(&h.failNext, -1) >= 0 {
 			h.conn.Failed(b, to)
@@ -410,6 +413,11 @@ func (h *H) logOut(o sim.Out, failed bool) *sim.Dict {
 	if ro, ok := d.Int("ro"); ok && ro == 1 {
 		m["ro"] = true
 	}
+	if o.Foreign && (string(y) == "r" || string(y) == "e") {
+		// (queries go to whatever address object the caller or a reply's node list supplied; replies go back to
+		// the object the transport handed out with the query)
+		m["foreign"] = true
+	}
 	switch string(y) {
 	case "r":
 		m["kind"] = "r"
@@ -599,6 +607,9 @@ func v6(n int, port int) *net.UDPAddr {
 
 func (h *H) randSrc() *net.UDPAddr {
 	port := 1024 + h.rng.Intn(60000)
+	if h.o.zones && h.rng.Intn(5) == 0 {
+		return &net.UDPAddr{IP: net.ParseIP(fmt.Sprintf("fe80::%x", 1+h.rng.Intn(4))), Port: port, Zone: "eth0"}
+	}
 	switch h.rng.Intn(6) {
 	case 0:
 		return v6(1+h.rng.Intn(6), port)
